@@ -574,3 +574,237 @@ Section Reachable.
     rewrite Ba in Hst. rewrite Bb in Hst'. rewrite app_nil_r in *. auto.
   Qed.
 End Reachable.
+
+(* ---------- draining terminates: a potential that every delivery decreases ----------
+   weight 2 for a frame that carries data, 1 for a credit-only frame, 3 per byte still
+   buffered, 2 for a receiver whose ledger is at or below the threshold (it owes a
+   credit frame).  Every enabled delivery lowers the potential by at least 1, so from
+   any reachable state a bounded number of deliveries empties both channels. *)
+Definition fw (f : frame) : Z := if has_data f then 2 else 1.
+Fixpoint weight (fs : list frame) : Z :=
+  match fs with [] => 0 | f :: r => fw f + weight r end.
+Definition owes (P : params) (rx : Z) : Z := if rx <=? p_threshold P then 2 else 0.
+Definition blen (d : dlc) : Z := Z.of_nat (length (d_tx_buf d)).
+
+Lemma weight_app a b : weight (a ++ b) = weight a + weight b.
+Proof. induction a; cbn [weight app]; lia. Qed.
+Lemma weight_nonneg a : 0 <= weight a.
+Proof. induction a as [|f r IH]; cbn [weight]; [lia|]. unfold fw. destruct (has_data f); lia. Qed.
+
+Lemma skip_take_length n l :
+  1 <= n -> l <> [] ->
+  (length (skipn (length (take n l)) l) + 1 <= length l)%nat.
+Proof. intros. pose proof (skip_take_shorter n l H H0). lia. Qed.
+
+Lemma ptx_loop_weight : forall fuel d need,
+  2 <= d_mtu d ->
+  (length (d_tx_buf d) + 1 + (if (0 <? need)%Z then 1 else 0) <= fuel)%nat ->
+  let '(d', frs, ok) := ptx_loop fuel d need in
+  weight frs + 3 * blen d' <= 3 * blen d + (if 0 <? need then 1 else 0).
+Proof.
+  induction fuel as [|fuel IH]; intros d need Hmtu Hfuel.
+  - exfalso. lia.
+  - cbn [ptx_loop]. unfold ptx_iter.
+    set (can := negb (is_nil (d_tx_buf d)) && (0 <? d_tx_credits d)).
+    destruct (0 <? need) eqn:En.
+    + rewrite orb_true_r. destruct can eqn:Ec.
+      * subst can. apply andb_prop in Ec as [Eb Et]. apply negb_true_iff, is_nil_false in Eb.
+        set (data := take (d_mtu d - 1) (d_tx_buf d)).
+        set (d1 := mkDlc (d_mtu d) (d_tx_credits d - 1) (d_rx_credits d + need)
+                         (skipn (length data) (d_tx_buf d))).
+        pose proof (skip_take_length (d_mtu d - 1) (d_tx_buf d) ltac:(lia) Eb) as Hs. fold data in Hs.
+        specialize (IH d1 0 ltac:(cbn; lia)).
+        assert (H0 : (0 <? 0) = false) by reflexivity. rewrite H0 in IH.
+        specialize (IH ltac:(cbn [d1 d_tx_buf]; lia)).
+        destruct (ptx_loop fuel d1 0) as [[d2 frs] ok].
+        unfold blen in *. cbn [d1 d_tx_buf] in IH. cbn [weight]. unfold fw.
+        destruct (has_data _); lia.
+      * destruct fuel as [|fuel]; [exfalso; lia|].
+        cbn [ptx_loop]. unfold ptx_iter. cbn [d_tx_buf d_tx_credits d_mtu d_rx_credits].
+        fold can. rewrite Ec. cbn [orb]. assert (H0 : (0 <? 0) = false) by reflexivity. rewrite H0.
+        cbn [weight]. unfold fw, has_data, frame_data, blen. cbn [f_pf f_info tl is_nil negb d_tx_buf]. lia.
+    + rewrite orb_false_r. destruct can eqn:Ec.
+      * subst can. apply andb_prop in Ec as [Eb Et]. apply negb_true_iff, is_nil_false in Eb.
+        set (data := take (d_mtu d) (d_tx_buf d)).
+        set (d1 := mkDlc (d_mtu d) (d_tx_credits d - 1) (d_rx_credits d)
+                         (skipn (length data) (d_tx_buf d))).
+        pose proof (skip_take_length (d_mtu d) (d_tx_buf d) ltac:(lia) Eb) as Hs. fold data in Hs.
+        specialize (IH d1 0 ltac:(cbn; lia)).
+        assert (H0 : (0 <? 0) = false) by reflexivity. rewrite H0 in IH.
+        specialize (IH ltac:(cbn [d1 d_tx_buf]; lia)).
+        destruct (ptx_loop fuel d1 0) as [[d2 frs] ok].
+        unfold blen in *. cbn [d1 d_tx_buf] in IH. cbn [weight]. unfold fw.
+        destruct (has_data _); lia.
+      * cbn [weight]. lia.
+Qed.
+
+Lemma process_tx_weight P d :
+  wf_params P -> 2 <= d_mtu d -> 0 <= d_tx_credits d -> 0 <= d_rx_credits d ->
+  let '(d', frs, ok) := process_tx P d in
+  weight frs + 3 * blen d' + owes P (d_rx_credits d') + (if d_rx_credits d <=? p_threshold P then 1 else 0)
+  <= 3 * blen d + owes P (d_rx_credits d).
+Proof.
+  intros HP Hmtu Htx Hrx.
+  pose proof (process_tx_spec P d HP Hmtu Htx Hrx) as Hspec.
+  unfold process_tx in *.
+  pose proof (ptx_loop_weight (S (S (length (d_tx_buf d)))) d (needed P d) Hmtu) as Hw.
+  assert (Hf : (length (d_tx_buf d) + 1 + (if (0 <? needed P d)%Z then 1 else 0)
+                <= S (S (length (d_tx_buf d))))%nat) by (destruct (0 <? needed P d); lia).
+  specialize (Hw Hf).
+  destruct (ptx_loop (S (S (length (d_tx_buf d)))) d (needed P d)) as [[d' frs] ok].
+  destruct Hspec as (_ & _ & _ & _ & _ & _ & _ & Hthr & _).
+  destruct HP as (HP1 & HP2 & HP3).
+  unfold owes, needed in *.
+  destruct (d_rx_credits d <=? p_threshold P) eqn:E;
+    [apply Z.leb_le in E|apply Z.leb_gt in E];
+    (destruct (d_rx_credits d' <=? p_threshold P) eqn:E'; [apply Z.leb_le in E'; lia|]).
+  - assert (Hn : (0 <? p_max_credits P - d_rx_credits d) = true) by (apply Z.ltb_lt; lia).
+    rewrite Hn in Hw. lia.
+  - change (if 0 <? 0 then 1 else 0) with 0 in Hw. lia.
+Qed.
+
+Lemma on_uih_weight P R f :
+  wf_params P -> 2 <= d_mtu R -> 0 <= d_tx_credits R -> 0 <= frame_credits f -> 1 <= d_rx_credits R ->
+  let '(R', frs, data, ok) := dlc_on_uih P R f in
+  weight frs + 3 * blen R' + owes P (d_rx_credits R') + 1
+  <= 3 * blen R + owes P (d_rx_credits R) + fw f.
+Proof.
+  intros HP HmR HtR Hcf Hrx. unfold dlc_on_uih.
+  assert (Hsplit : (if f_pf f then (d_tx_credits R + hd 0 (f_info f), tl (f_info f))
+                    else (d_tx_credits R, f_info f))
+                   = (d_tx_credits R + frame_credits f, frame_data f)).
+  { unfold frame_credits, frame_data. destruct (f_pf f); [reflexivity|f_equal; lia]. }
+  rewrite Hsplit.
+  set (rx1 := if is_nil (frame_data f) then d_rx_credits R
+              else if 0 <? d_rx_credits R then d_rx_credits R - 1 else d_rx_credits R).
+  assert (Hrx1 : rx1 = d_rx_credits R - (if has_data f then 1 else 0)).
+  { unfold rx1, has_data. destruct (is_nil (frame_data f)); cbn; [lia|].
+    destruct (0 <? d_rx_credits R) eqn:E; [lia|apply Z.ltb_ge in E; lia]. }
+  set (R1 := mkDlc (d_mtu R) (d_tx_credits R + frame_credits f) rx1 (d_tx_buf R)).
+  assert (H0rx1 : 0 <= rx1) by (rewrite Hrx1; destruct (has_data f); lia).
+  pose proof (process_tx_weight P R1 HP ltac:(cbn; lia) ltac:(cbn; lia) ltac:(cbn; lia)) as H.
+  destruct (process_tx P R1) as [[R' frs] ok].
+  unfold blen in *. cbn [R1 d_tx_buf d_rx_credits] in H.
+  destruct HP as (HP1 & HP2 & HP3). unfold owes, fw in *.
+  destruct (has_data f);
+    destruct (rx1 <=? p_threshold P) eqn:E1; [apply Z.leb_le in E1| apply Z.leb_gt in E1|apply Z.leb_le in E1| apply Z.leb_gt in E1];
+    destruct (d_rx_credits R <=? p_threshold P) eqn:E2; [apply Z.leb_le in E2| apply Z.leb_gt in E2|apply Z.leb_le in E2| apply Z.leb_gt in E2|apply Z.leb_le in E2| apply Z.leb_gt in E2|apply Z.leb_le in E2| apply Z.leb_gt in E2];
+    lia.
+Qed.
+
+Definition phi (P : params) (s : sys) : Z :=
+  3 * blen (s_a s) + 3 * blen (s_b s) + weight (s_ab s) + weight (s_ba s)
+  + owes P (d_rx_credits (s_a s)) + owes P (d_rx_credits (s_b s)).
+
+Lemma phi_nonneg P s : 0 <= phi P s.
+Proof.
+  unfold phi, blen, owes. pose proof (weight_nonneg (s_ab s)). pose proof (weight_nonneg (s_ba s)).
+  destruct (_ <=? _); destruct (_ <=? _); lia.
+Qed.
+
+(* an enabled delivery lowers the potential *)
+Lemma deliver_ab_phi P wa wb s f rest :
+  wf_params P -> inv P wa wb s -> s_ab s = f :: rest -> phi P (step P s DeliverAB) + 1 <= phi P s.
+Proof.
+  intros HP [Hab Hba Hok] E. cbn [step]. rewrite E.
+  assert (Hcf : 0 <= frame_credits f).
+  { pose proof (di_back _ _ _ _ _ _ _ Hba) as Hb. rewrite E in Hb. inversion Hb; assumption. }
+  pose proof (on_uih_weight P (s_b s) f HP (di_mtu _ _ _ _ _ _ _ Hba) (di_tx _ _ _ _ _ _ _ Hba) Hcf
+                (di_rx _ _ _ _ _ _ _ Hab)) as H.
+  destruct (dlc_on_uih P (s_b s) f) as [[[b' frs] data] ok].
+  unfold phi. cbn [s_a s_b s_ab s_ba]. rewrite E, weight_app. cbn [weight]. lia.
+Qed.
+
+Lemma deliver_ba_phi P wa wb s f rest :
+  wf_params P -> inv P wa wb s -> s_ba s = f :: rest -> phi P (step P s DeliverBA) + 1 <= phi P s.
+Proof.
+  intros HP [Hab Hba Hok] E. cbn [step]. rewrite E.
+  assert (Hcf : 0 <= frame_credits f).
+  { pose proof (di_back _ _ _ _ _ _ _ Hab) as Hb. rewrite E in Hb. inversion Hb; assumption. }
+  pose proof (on_uih_weight P (s_a s) f HP (di_mtu _ _ _ _ _ _ _ Hab) (di_tx _ _ _ _ _ _ _ Hab) Hcf
+                (di_rx _ _ _ _ _ _ _ Hba)) as H.
+  destruct (dlc_on_uih P (s_a s) f) as [[[a' frs] data] ok].
+  unfold phi. cbn [s_a s_b s_ab s_ba]. rewrite E, weight_app. cbn [weight]. lia.
+Qed.
+
+Fixpoint drain_sched (n : nat) : list label :=
+  match n with O => [] | S k => DeliverAB :: DeliverBA :: drain_sched k end.
+
+Lemma writes_a_drain n : writes_a (drain_sched n) = [].
+Proof. induction n; cbn; auto. Qed.
+Lemma writes_b_drain n : writes_b (drain_sched n) = [].
+Proof. induction n; cbn; auto. Qed.
+
+Lemma drain_quiescent_stays P n : forall s, s_ab s = [] -> s_ba s = [] -> run P s (drain_sched n) = s.
+Proof.
+  induction n as [|n IH]; intros s Ea Eb; [reflexivity|].
+  cbn [drain_sched run step]. rewrite Ea. rewrite Eb. apply IH; assumption.
+Qed.
+
+Lemma drains P : forall n wa wb s,
+  wf_params P -> inv P wa wb s -> phi P s <= Z.of_nat n ->
+  let s' := run P s (drain_sched n) in s_ab s' = [] /\ s_ba s' = [].
+Proof.
+  induction n as [|n IH]; intros wa wb s HP Hi Hphi; cbn zeta.
+  - cbn [drain_sched run]. pose proof (phi_nonneg P s) as H0.
+    assert (Hz : phi P s = 0) by lia. unfold phi, blen, owes in Hz.
+    pose proof (weight_nonneg (s_ab s)) as Wa. pose proof (weight_nonneg (s_ba s)) as Wb.
+    assert (Za : weight (s_ab s) = 0) by (destruct (_ <=? _) in Hz; destruct (_ <=? _) in Hz; lia).
+    assert (Zb : weight (s_ba s) = 0) by (destruct (_ <=? _) in Hz; destruct (_ <=? _) in Hz; lia).
+    split.
+    + destruct (s_ab s) as [|f r]; [reflexivity|]. cbn [weight] in Za.
+      pose proof (weight_nonneg r). unfold fw in Za. destruct (has_data f); lia.
+    + destruct (s_ba s) as [|f r]; [reflexivity|]. cbn [weight] in Zb.
+      pose proof (weight_nonneg r). unfold fw in Zb. destruct (has_data f); lia.
+  - cbn [drain_sched run].
+    set (s1 := step P s DeliverAB). set (s2 := step P s1 DeliverBA).
+    pose proof (step_inv P wa wb s DeliverAB HP Hi) as Hi1. cbn [label_writes_a label_writes_b] in Hi1.
+    rewrite !app_nil_r in Hi1. fold s1 in Hi1.
+    pose proof (step_inv P wa wb s1 DeliverBA HP Hi1) as Hi2. cbn [label_writes_a label_writes_b] in Hi2.
+    rewrite !app_nil_r in Hi2. fold s2 in Hi2.
+    destruct (s_ab s) as [|f r] eqn:Ea.
+    + assert (E1 : s1 = s) by (unfold s1; cbn [step]; rewrite Ea; reflexivity).
+      destruct (s_ba s) as [|g r'] eqn:Eb.
+      * assert (E2 : s2 = s) by (unfold s2; rewrite E1; cbn [step]; rewrite Eb; reflexivity).
+        rewrite E2. rewrite (drain_quiescent_stays P n s Ea Eb). auto.
+      * assert (Hd : phi P s2 + 1 <= phi P s).
+        { unfold s2. rewrite E1. eapply deliver_ba_phi; eauto. }
+        apply (IH wa wb s2 HP Hi2). lia.
+    + assert (Hd1 : phi P s1 + 1 <= phi P s) by (unfold s1; eapply deliver_ab_phi; eauto).
+      assert (Hd2 : phi P s2 <= phi P s1).
+      { destruct (s_ba s1) as [|g r'] eqn:Eb.
+        - assert (E2 : s2 = s1) by (unfold s2; cbn [step]; rewrite Eb; reflexivity). rewrite E2. lia.
+        - pose proof (deliver_ba_phi P wa wb s1 g r' HP Hi1 Eb). fold s2 in H. lia. }
+      apply (IH wa wb s2 HP Hi2). lia.
+Qed.
+
+Lemma run_app' P s l1 l2 : run P s (l1 ++ l2) = run P (run P s l1) l2.
+Proof. revert s. induction l1; intros s; cbn; auto. Qed.
+
+Lemma writes_a_app' l1 l2 : writes_a (l1 ++ l2) = writes_a l1 ++ writes_a l2.
+Proof. induction l1 as [|l r IH]; [reflexivity|]. cbn [app]. rewrite !writes_a_cons, IH, app_assoc. reflexivity. Qed.
+Lemma writes_b_app' l1 l2 : writes_b (l1 ++ l2) = writes_b l1 ++ writes_b l2.
+Proof. induction l1 as [|l r IH]; [reflexivity|]. cbn [app]. rewrite !writes_b_cons, IH, app_assoc. reflexivity. Qed.
+
+(* progress, second half: from every reachable state, a bounded number of deliveries
+   (and nothing else) empties both channels, at which point everything written has
+   been handed to the peer's sink *)
+Lemma drains_reachable P ini rsp mtu_i mtu_r ls :
+  wf_params_b P = true -> wf_setup_b ini rsp mtu_i mtu_r = true ->
+  exists n,
+    let s := run P (setup ini rsp mtu_i mtu_r) (ls ++ drain_sched n) in
+    s_ab s = [] /\ s_ba s = [] /\ s_rcv_b s = writes_a ls /\ s_rcv_a s = writes_b ls.
+Proof.
+  intros HP Hwf.
+  pose proof (reach_inv P ini rsp mtu_i mtu_r HP Hwf ls) as Hi.
+  set (s1 := run P (setup ini rsp mtu_i mtu_r) ls) in *.
+  exists (Z.to_nat (phi P s1)). cbn zeta. rewrite run_app'. fold s1.
+  pose proof (phi_nonneg P s1) as Hp.
+  destruct (drains P (Z.to_nat (phi P s1)) _ _ s1 (wf_params_b_ok P HP) Hi ltac:(lia)) as [Ea Eb].
+  split; [exact Ea|]. split; [exact Eb|].
+  pose proof (progress P ini rsp mtu_i mtu_r HP Hwf (ls ++ drain_sched (Z.to_nat (phi P s1)))) as Hpr.
+  cbn zeta in Hpr. rewrite run_app' in Hpr. fold s1 in Hpr.
+  destruct (Hpr Ea Eb) as (_ & _ & Hb & Ha).
+  rewrite writes_a_app', writes_a_drain, app_nil_r in Hb.
+  rewrite writes_b_app', writes_b_drain, app_nil_r in Ha. auto.
+Qed.
